@@ -150,6 +150,7 @@ theorem tail_eff (g : Gene) (s : Section) (id : Nat) (kind : Kind) (loc core : L
     exact ⟨[(g.id, some id)], rfl, by simp⟩
   | cand => simp only [tail]; constructor <;> simp [defines, AreaT.kind]
   | sub => simp only [tail]; constructor <;> simp [defines, AreaT.kind]
+  | sideProto => simp only [tail]; constructor <;> simp [defines, AreaT.kind]
 
 theorem pushDown_unfold (g : Gene) (given : Option Section) (id : Nat) (kind : Kind) (loc core : Loc) (product : String)
     (kids : List AreaT) (r : Rec) :
